@@ -107,6 +107,52 @@ def observe(Q, d, h, ph):
     return tail, params
 
 
+def head_family(rep, tier):
+    """DISTINCT and TOP in every call order, with and without the other row-limiting calls: the words between SELECT and the first select item"""
+    import itertools
+    from harness import execb
+    from harness.c11 import gen
+
+    pool = [{"m": "distinct"}, {"m": "top", "n": 5, "bad": False}, {"m": "limit", "n": 3}, {"m": "offset", "n": 2},
+            {"m": "orderby", "terms": [{"k": "fld", "src": "T1", "n": "a"}], "dir": ""}, {"m": "where", "crit": {"k": "bin", "op": "=", "l": {"k": "fld", "src": "T1", "n": "b"}, "r": {"k": "num", "n": "1"}}}]
+    prefix = [{"m": "from_", "src": "T1"}, {"m": "select", "terms": [{"k": "fld", "src": "T1", "n": "a"}]}]
+    events, meta = [], []
+    for d, Q in core.query_classes().items():
+        for n in (1, 2, 3):
+            for calls in itertools.permutations(pool, n):
+                if any(c["m"] == "top" for c in calls) and d != "mssql":
+                    continue
+                if not any(c["m"] in ("distinct", "top") for c in calls):
+                    continue
+                env = execb.Env(Q)
+                q = core.empty_builder(Q)
+                exc, head, text = "", [], ""
+                try:
+                    for c in prefix + list(calls):
+                        q = env.apply(q, c)
+                    text = str(q)
+                    toks = lexer.lex(text, core.lex_dialect(d))
+                    k0 = next(k for k, t in enumerate(toks) if t["t"] == "word" and t["v"] == "SELECT")
+                    k1 = next(k for k, t in enumerate(toks) if k > k0 and t["t"] == "id")
+                    head = [t["v"] for t in toks[k0 + 1:k1]]
+                except Exception as ex:  # noqa
+                    exc = type(ex).__name__
+                events.append({"tid": len(events), "d": d, "hist": prefix + list(calls), "head": head, "exc": exc})
+                meta.append((d, [c["m"] for c in calls], text))
+    results = tlc.judge_shards("J_HeadGen", "CONSTANT SrcTab <- G_SrcTab\nINIT Init\nNEXT Next\n", events, shard=max(300, len(events) // 8 + 1),
+                               extra_files={"J_HeadGen.tla": gen("J_Head")}, timeout=1200)
+    rep.add_tlc(results)
+    if sum(max(x.distinct - 1, 0) for x in results) != len(events):
+        raise core.MachineryError("J_Head did not consume every event")
+    for res in results:
+        for v in res.json_tagged("V"):
+            d, calls, text = meta[v["tid"]]
+            rep.discrepancy([["select-head", d, "+".join(sorted(set(calls) & {"distinct", "top"}))]],
+                            {"dialect": d, "calls": calls, "sql": text, "expected_head": v["want"], "observed_head": events[v["tid"]]["head"], "error": events[v["tid"]]["exc"]},
+                            what="the words between SELECT and the first select item differ from PT_Builder!SelHead")
+    return len(events)
+
+
 OUTER_MARK = 7771
 
 
@@ -170,7 +216,9 @@ def run(tier: str) -> int:
     rep.add_tlc(results)
     if sum(max(x.distinct - 1, 0) for x in results) != len(events):
         raise core.MachineryError("J_C09 did not consume every event")
-    rep.traces = len(events)
+    n_head = head_family(rep, tier)
+    rep.extra["select_head_programs"] = n_head
+    rep.traces = len(events) + n_head
     rep.evaluations = len(events)
     rep.distinct = {(m[0], json.dumps(m[1], sort_keys=True), m[2]) for m in meta}
     nbad = 0
